@@ -65,6 +65,16 @@ CHECKS = {
         "rapid adds longer strings over a wider alphabet. Oracles: print/re-parse identity, one label per printed form, RelativeTo stability, and resolved "
         "source/generated paths inside the root (pure and end-to-end through dawn.Load).",
    note="Exhaustive only within the stated alphabet and length bound; confinement is judged by filepath.Rel against the project root."),
+ "C13": dict(engine="projsim", level="exploration", section="5 C13", technique="model-based property testing (rapid): dry runs inserted into generated histories, differential against a real build of a full copy and against the same history without dry runs",
+   text="Each dry run must leave the execution log, the tree and .dawn/build byte-identical (hash after Run == hash after Load) and must announce exactly the "
+        "targets a real build of a full copy of the same tree and state evaluates (minus targets downstream of a failing body); the history without its dry "
+        "runs must execute the same bodies in every real build.",
+   note="State comparison starts after Load (the load-time record refresh is the baseline); projects as in C01."),
+ "C14": dict(engine="projsim", level="exploration", section="5 C14", technique="model-based property testing (rapid): twin histories with/without garbage collection, plus invariants over the record directory after each collection",
+   text="Histories with target/source additions and removals are run twice, with and without collections (full-load and index-preferring styles, strays "
+        "planted in temp/). Executed bodies must agree build by build; after a collection live records are byte-identical, dead records gone (full style), "
+        "temp/ empty, nothing outside .dawn/build touched.",
+   note="A removed label is never re-created (the property's own quantifier); the removal clause is checked for full-load collections only."),
  "C15": dict(engine="starval", level="exploration", section="5 C15", technique="structure-aware mutation fuzzing (rapid) + coverage-guided native fuzzing (go test -fuzz) with a value-or-error oracle",
    text="Mutated valid encodings (values and real function environments), opcode soup and every truncation of the environment seeds are decoded with the "
         "generic, the dawn environment and no unpickler; thorough adds a native coverage-guided campaign. Oracle: value xor error, well-formed value, no panic, no hang.",
